@@ -8,7 +8,7 @@ import ast
 from fractions import Fraction
 
 from ..engine import AnalysisError
-from ..termform import Normalizer, Poly, assigned_exprs, compare, inline_calls, leaves, norm_spec, return_exprs, straight_line_env, subst
+from ..termform import Normalizer, Poly, assigned_exprs, compare, inline_calls, leaves, norm_spec, path_exprs, return_exprs, straight_line_env, subst
 
 
 def get_func(p, cname, fname):
@@ -40,8 +40,79 @@ def cond_text(conds):
     return " and ".join(("" if pol else "not ") + "(" + " ".join(ast.unparse(t).split()) + ")" for t, pol in conds)
 
 
-def extract(f, kind, target=None, when=None, index=None, inline=False):
+def _pick(kind, target):
+    """statement -> expressions of interest, for the path-sensitive kinds:
+    result           the returned value
+    store:<text>     the value stored to the attribute / subscript written <text> (e.g. store:self._err)
+    arg:<callee>:<k> the k-th positional argument (canonical form binds keywords to positions) of every call of a function / method named <callee>"""
+    if kind == "result":
+        return lambda st: [st.value] if isinstance(st, ast.Return) and st.value is not None else []
+    if kind == "store":
+        def pick(st):
+            if isinstance(st, ast.Assign):
+                return [st.value for t in st.targets if " ".join(ast.unparse(t).split()) == target]
+            return []
+        return pick
+    if kind == "arg":
+        callee, k = target.rsplit(":", 1)
+
+        def pick(st):
+            out = []
+            own = [st] if not hasattr(st, "body") else [x for x in (getattr(st, "test", None), getattr(st, "iter", None)) if x is not None]
+            for o in own:
+                for c in ast.walk(o):
+                    if isinstance(c, ast.Call) and (c.func.attr if isinstance(c.func, ast.Attribute) else getattr(c.func, "id", None)) == callee:
+                        if k.isdigit() and len(c.args) > int(k):
+                            out.append(c.args[int(k)])
+                        else:
+                            out.extend(kw.value for kw in c.keywords if kw.arg == k)
+            return out
+        return pick
+    raise AnalysisError("unknown extraction kind %s" % kind)
+
+
+def canon_cond_text(conds):
+    """guards of a path with negations folded: ['(a > 0)', 'not (self.relative)', ...]"""
+    from ..canon import negate, positive, _is_negative
+
+    out = []
+    for t, pol in conds:
+        t = positive(t)
+        if _is_negative(t):
+            t, pol = negate(t), not pol
+        out.append(("" if pol else "not ") + "(" + " ".join(ast.unparse(t).split()) + ")")
+    return out
+
+
+def extract(f, kind, target=None, when=None, index=None, inline=False, node=None):
     """normal forms [(cond text, Poly)] of the requested expression(s)"""
+    if kind in ("result", "store", "arg"):
+        try:
+            rs = path_exprs(node if node is not None else f.node, _pick(kind, target))
+        except ValueError as e:
+            raise AnalysisError("%s: %s" % (f.qualname, e))
+        out = []
+        for conds, e, env in rs:
+            lits = canon_cond_text(conds)
+            # `when` = the states the formula is documented for: a path is left out only if it *contradicts* one of the literals (a path that does not test a
+            # literal at all also serves the states where it holds)
+            ws = [] if when is None else ([when] if isinstance(when, str) else list(when))
+            if any((w[4:] if w.startswith("not ") else "not " + w) in lits for w in ws):
+                continue
+            if index is not None:
+                if isinstance(e, (ast.Tuple, ast.List)) and len(e.elts) > index:
+                    e = e.elts[index]
+                else:
+                    e2 = subst(e, env)
+                    if isinstance(e2, (ast.Tuple, ast.List)) and len(e2.elts) > index:
+                        e = e2.elts[index]
+                    else:
+                        raise AnalysisError("%s: tuple return expected" % f.qualname)
+            e = subst(e, env)
+            if inline and getattr(f, "cls", None) is not None:
+                e = inline_calls(e, _helper_resolver(f))
+            out.append((" and ".join(lits), Normalizer({}).norm(e), leaves(e, {})))
+        return out
     rs = return_exprs(f.node) if kind == "return" else assigned_exprs(f.node, target)
     out = []
     for conds, e, env in rs:
@@ -88,7 +159,8 @@ def _helper_resolver(f):
 def check(eng, R, rule, cname, fname, kind, spec, target=None, when=None, what="", index=None, not_none=True, rename=None, known=()):
     p = eng.p
     f = get_func(p, cname, fname)
-    forms = extract(f, kind, target, when, index)
+    node = eng.cnode(f) if kind in ("result", "store", "arg") else None  # the path-sensitive kinds read the canonical form
+    forms = extract(f, kind, target, when, index, node=node)
     forms = [(c, x, lv) for c, x, lv in forms if not (not_none and x.canon() == "None")]
     construct = "%s.%s:%s%s" % (cname or "", fname, target or "return", (":" + (when if isinstance(when, str) else "&".join(when))) if when else "")
     if not forms:
@@ -101,7 +173,7 @@ def check(eng, R, rule, cname, fname, kind, spec, target=None, when=None, what="
         if res == "unknown":
             # the formula may have been moved into a helper of the same class: read through it once
             if inlined is None:
-                inlined = [t for t in extract(f, kind, target, when, index, inline=True) if not (not_none and t[1].canon() == "None")]
+                inlined = [t for t in extract(f, kind, target, when, index, inline=True, node=node) if not (not_none and t[1].canon() == "None")]
             if len(inlined) == len(forms):
                 ct, form, lv = inlined[i]
                 res, detail = compare(form, sp, lv, sp_leaves, known)
